@@ -85,8 +85,15 @@ def run(tier, replay=None):
         s1 = os.path.join(d, "seqs1.ndjson"); s2 = os.path.join(d, "seqs2.ndjson")
         vlib.sh([sexe, "seqs", "0", str(PAIRS + BARE), "1", "200", s1], check=True, timeout=6000)
         vlib.sh([sexe, "seqs", str(PAIRS + BARE + vlib.seed() % 37), str(TOTAL), "37" if tier == "quick" else "1", "200", s2], check=True, timeout=20000)
+        # the same from a RANDOMISED power-on state (Verilator randReset(2), as hextb does it): everything reset does not reach - an undriven
+        # bit, a flop left out of the reset branch - differs from the zeros the runs above start from
+        s3 = os.path.join(d, "seqs3.ndjson"); r3 = os.path.join(d, "runs3.ndjson")
+        renv = {"VERIF_RANDRESET": "2", "VERIF_RANDSEED": str(vlib.seed() + 17)}
+        vlib.sh([sexe, "seqs", str(vlib.seed() % 5), str(PAIRS + BARE), "5" if tier == "quick" else "1", "200", s3], check=True, timeout=6000, env=renv)
+        vlib.sh([sexe, "rand", str(vlib.seed() + 1000), str(nrand // 3), str(maxc), r3], check=True, timeout=6000, env=renv)
         with open(rr, "a") as f:
-            f.write(open(s1).read()); f.write(open(s2).read())
+            f.write(open(s1).read()); f.write(open(s2).read()); f.write(open(s3).read()); f.write(open(r3).read())
+        chk.set("runs_from_a_randomised_power_on_state", sum(1 for _ in open(s3)) + sum(1 for _ in open(r3)))
         chk.set("enumerated_sequences", sum(1 for _ in open(s1)) + sum(1 for _ in open(s2)))
         progs = corpus.repo_binaries(d, with_xhexb=(tier != "quick"))
         limit = 100000 if tier == "quick" else 1500000
